@@ -407,6 +407,7 @@ func c05RunPoint(in c05PointIn, verbose bool) c05Verdict {
 	x := vs.Run1(c05Cfg, func() {
 		id, _ := vs.CurThread()
 		c := NewCache(&Args{Size: 1024, LazyCacheTTL: lazy}, Opts{})
+		c05Yield() // the plugin's background goroutines (sweeper, dump loop) start now
 		u := &c05Up{mainID: id, script: func(n int) c05Ans {
 			if n == 0 {
 				return a
@@ -621,6 +622,7 @@ func c05RunSeq(in c05SeqIn, verbose bool) c05Verdict {
 	x := vs.Run1(c05Cfg, func() {
 		id, _ := vs.CurThread()
 		c := NewCache(&Args{Size: 1024, LazyCacheTTL: in.Lazy}, Opts{})
+		c05Yield() // the plugin's background goroutines (sweeper, dump loop) start now
 		u = &c05Up{mainID: id, bgDelay: delay, script: func(n int) c05Ans {
 			switch n {
 			case 0:
